@@ -162,6 +162,7 @@ fn emit_one(e: &Emit) {
 fn child(file: &str) -> i32 {
   let cases = read_cases(file);
   let Some(c) = cases.first() else { eprintln!("no case in {file}"); return 2 };
+  if kv(&c.header, "kind") == Some("race") { return child_race(c, file); }
   let k = match parse_case(c) { Ok(k) => k, Err(e) => { eprintln!("bad case: {e}"); return 2 } };
   let ypath = format!("{}.yaml", file.trim_end_matches(".case"));
   std::fs::write(&ypath, yaml_of(&k)).expect("write yaml");
@@ -263,6 +264,158 @@ fn child(file: &str) -> i32 {
   std::process::exit(0);
 }
 
+
+// ------------------------------------------------------------------ shutdown race (writer thread + stream)
+/// `#case <id> kind=race threads=<k> n=<per thread> after=<total completed emits before shutdown> cap=<c> sd=<shutdown|drop>`
+/// Fixed configuration: custom stream `S` and file appender `F`, both Block with capacity `cap`,
+/// root trace -> [S, F]. k threads emit n events each without pause; once `after` emits have
+/// RETURNED the main thread records per thread how many had returned (`snap`), then shuts down
+/// while the threads keep emitting. Everything below `snap` was accepted before shutdown began.
+struct RaceCfg { threads: usize, n: usize, after: usize, cap: usize, sd: String }
+fn race_cfg(c: &CaseIn) -> RaceCfg {
+  let g = |k: &str, d: usize| kv(&c.header, k).and_then(|s| s.parse().ok()).unwrap_or(d);
+  RaceCfg { threads: g("threads", 2).clamp(1, 8), n: g("n", 100).clamp(1, 5000), after: g("after", 50), cap: g("cap", 4).max(1), sd: kv(&c.header, "sd").unwrap_or("shutdown").to_string() }
+}
+
+fn ranges(v: &[usize]) -> String {
+  if v.is_empty() { return "-".into(); }
+  let mut out = vec![];
+  let (mut a, mut b) = (v[0], v[0]);
+  for &x in &v[1..] {
+    if x == b + 1 { b = x; } else { out.push(if a == b { format!("{a}") } else { format!("{a}-{b}") }); a = x; b = x; }
+  }
+  out.push(if a == b { format!("{a}") } else { format!("{a}-{b}") });
+  out.join(",")
+}
+
+fn child_race(c: &CaseIn, file: &str) -> i32 {
+  let rc = race_cfg(c);
+  let base = file.trim_end_matches(".case").to_string();
+  let (ypath, lpath) = (format!("{base}.yaml"), format!("{base}.log"));
+  let _ = std::fs::remove_file(&lpath);
+  let yaml = format!("version: 1\nappenders:\n  S:\n    kind: custom\n    buffer_size: {cap}\n    overflow: block\n  F:\n    kind: file\n    path: \"{lpath}\"\n    channel_capacity: {cap}\n    overflow: block\n    encoder:\n      kind: pattern\n      pattern: \"%m%n\"\nloggers:\n  root:\n    level: trace\n    appenders: [S, F]\n", cap = rc.cap);
+  std::fs::write(&ypath, yaml).expect("write yaml");
+  let mut init = match fibre_logging::init_from_file(std::path::Path::new(&ypath)) {
+    Ok(i) => i,
+    Err(e) => { println!("initerror {}", format!("{e}").replace(char::is_whitespace, "_")); return 0 }
+  };
+  let deadline = Instant::now() + Duration::from_secs(20);
+  std::thread::spawn(move || {
+    while Instant::now() < deadline { std::thread::sleep(Duration::from_millis(100)); }
+    println!("hung race-emitters-or-drainer-did-not-finish");
+    let _ = std::io::stdout().flush();
+    std::process::exit(3);
+  });
+  let rx = init.custom_streams.remove("S").expect("stream S");
+  let drainer = std::thread::spawn(move || {
+    let mut v = vec![];
+    let status = loop {
+      match rx.recv_timeout(Duration::from_millis(50)) {
+        Ok(ev) => v.push(got_of(&ev)),
+        Err(fibre::error::RecvErrorTimeout::Disconnected) => break "disconnected",
+        Err(fibre::error::RecvErrorTimeout::Timeout) => { if Instant::now() > deadline { break "timeout" } }
+      }
+    };
+    (v, status)
+  });
+  let done: Arc<Vec<AtomicUsize>> = Arc::new((0..rc.threads).map(|_| AtomicUsize::new(0)).collect());
+  let mut emitters = vec![];
+  for t in 0..rc.threads {
+    let (done, n) = (done.clone(), rc.n);
+    emitters.push(std::thread::spawn(move || {
+      for seq in 0..n {
+        let e = Emit { thread: t, seq, api: if (seq + t) % 2 == 0 { "log".into() } else { "tracing".into() }, target: "a".into(), level: 3, after_shutdown: false, line: String::new() };
+        emit_one(&e);
+        done[t].store(seq + 1, Ordering::SeqCst);
+      }
+    }));
+  }
+  let total = rc.threads * rc.n;
+  while done.iter().map(|d| d.load(Ordering::SeqCst)).sum::<usize>() < rc.after.min(total) { std::hint::spin_loop(); }
+  let snap: Vec<usize> = done.iter().map(|d| d.load(Ordering::SeqCst)).collect();
+  if rc.sd == "drop" { drop(init) } else { init.shutdown(Duration::from_secs(5)) }
+  for h in emitters { let _ = h.join(); }
+  let (sv, sstatus) = drainer.join().unwrap_or((vec![], "timeout"));
+  // file content, in file order
+  let text = std::fs::read_to_string(&lpath).unwrap_or_default();
+  let fv: Vec<Got> = text.lines().map(|m| {
+    let (t, s) = m.strip_prefix('t').and_then(|r| r.split_once('s')).unwrap_or(("999999", "999999"));
+    Got { thread: t.parse().unwrap_or(999999), seq: s.parse().unwrap_or(999999), target: "a".into(), level: 3 }
+  }).collect();
+  for (name, v, status) in [("S", &sv, sstatus), ("F", &fv, "flushed")] {
+    for t in 0..rc.threads {
+      let seqs: Vec<usize> = v.iter().filter(|g| g.thread == t).map(|g| g.seq).collect();
+      let ordered = seqs.windows(2).all(|w| w[0] < w[1]);
+      let mut sorted = seqs.clone(); sorted.sort(); sorted.dedup();
+      println!("race {name} {t} snap={} got={} ordered={} dups={} {status}", snap[t], ranges(&sorted), ordered as u8, seqs.len() - sorted.len());
+    }
+    let foreign = v.iter().filter(|g| g.thread >= rc.threads).count();
+    if foreign > 0 { println!("raceforeign {name} {foreign}"); }
+  }
+  let _ = std::io::stdout().flush();
+  let _ = std::fs::remove_file(&ypath);
+  let _ = std::fs::remove_file(&lpath);
+  std::process::exit(0);
+}
+
+fn parse_ranges(s: &str) -> Vec<usize> {
+  let mut v = vec![];
+  if s == "-" { return v; }
+  for part in s.split(',') {
+    match part.split_once('-') {
+      Some((a, b)) => { let (a, b): (usize, usize) = (a.parse().unwrap_or(0), b.parse().unwrap_or(0)); v.extend(a..=b); }
+      None => v.push(part.parse().unwrap_or(usize::MAX)),
+    }
+  }
+  v
+}
+
+fn run_race(cin: &CaseIn, dir: &str) -> String {
+  let rc = race_cfg(cin);
+  let header = format!("kind=race threads={} n={} after={} cap={} sd={}", rc.threads, rc.n, rc.after, rc.cap, rc.sd);
+  let mut tr = Tr::new(&cin.id, &header);
+  let path = format!("{dir}/{}.case", cin.id.replace(|c: char| !c.is_ascii_alphanumeric() && c != '-' && c != '_', "_"));
+  std::fs::write(&path, format!("#case {} {}\n#end\n", cin.id, header)).expect("write case file");
+  let exe = std::env::current_exe().expect("current_exe");
+  let out = std::process::Command::new(exe).arg("child").arg(&path).output();
+  let _ = std::fs::remove_file(&path);
+  let (stdout, ok) = match out { Ok(o) => (String::from_utf8_lossy(&o.stdout).to_string(), o.status.success()), Err(_) => (String::new(), false) };
+  let mut fails: Vec<(String, String)> = vec![];
+  let mut seen = 0;
+  for l in stdout.lines() {
+    let t: Vec<&str> = l.split_whitespace().collect();
+    match t.as_slice() {
+      ["race", name, th, snap, got, ordered, dups, status] => {
+        seen += 1;
+        tr.line(&format!("race {name} {th}"), &format!("{snap} {got} {ordered} {dups} {status}"));
+        let snap: usize = snap.trim_start_matches("snap=").parse().unwrap_or(0);
+        let got = parse_ranges(got.trim_start_matches("got="));
+        let kind = if *name == "F" { "writer" } else { "stream" };
+        if let Some(miss) = (0..snap).find(|q| !got.contains(q)) {
+          fails.push((format!("pipeline:{kind}-lost-event-accepted-before-shutdown"), format!("appender {name}: emit t{th}s{miss} had returned before shutdown began ({snap} returned) but was never delivered")));
+        }
+        // a Block appender that delivered a later event of this thread had an open channel and a live
+        // consumer when the earlier one was sent, so the earlier one was accepted: gaps are losses
+        if let Some(miss) = (0..got.len()).find(|q| !got.contains(q)) {
+          if miss >= snap { fails.push((format!("pipeline:{kind}-gap-in-block-appender-sequence"), format!("appender {name}: t{th}s{miss} missing although later events of the same thread were delivered"))); }
+        }
+        if *ordered != "ordered=1" { fails.push((format!("deliver:{kind}-per-thread-order"), format!("appender {name} thread {th} out of emission order"))); }
+        if *dups != "dups=0" { fails.push((format!("deliver:{kind}-duplicate"), format!("appender {name} thread {th}: {dups}"))); }
+        if got.iter().any(|q| *q >= rc.n) { fails.push((format!("deliver:{kind}-unknown-event"), format!("appender {name} thread {th} delivered a sequence number that was never emitted"))); }
+        if *name == "S" && *status != "disconnected" { fails.push(("pipeline:stream-not-disconnected-after-shutdown".into(), format!("stream S ended with {status}"))); }
+      }
+      ["raceforeign", name, n] => fails.push(("deliver:unknown-event".into(), format!("appender {name} delivered {n} events of unknown threads"))),
+      ["initerror", what] => fails.push(("init:valid-config-rejected".into(), format!("init_from_file failed: {what}"))),
+      ["hung", ..] => fails.push(("pipeline:child-hung".into(), "race emitters or drainer did not finish within 20 s (a blocked send was not released by shutdown?)".into())),
+      _ => {}
+    }
+  }
+  if (!ok || seen != 2 * rc.threads) && fails.is_empty() { fails.push(("pipeline:child-crashed".into(), format!("race child failed (ok={ok}, {seen} result lines)"))); }
+  fails.dedup_by(|a, b| a.0 == b.0);
+  for (s, m) in &fails { tr.monitor(s, m); }
+  tr.finish()
+}
+
 // ------------------------------------------------------------------ the property, from its text
 fn name_matches(name: &str, target: &str) -> bool {
   target == name || target.strip_prefix(name).map_or(false, |r| r.starts_with("::"))
@@ -284,6 +437,7 @@ fn spec_delivers(k: &Case, target: &str, level: u8, a: usize) -> bool {
 }
 
 fn run_case(cin: &CaseIn, dir: &str) -> String {
+  if kv(&cin.header, "kind") == Some("race") { return run_race(cin, dir); }
   let k = match parse_case(cin) {
     Ok(k) => k,
     Err(e) => { let mut tr = Tr::new(&cin.id, &cin.header.join(" ")); tr.raw(&format!("# unparsable case: {e}")); return tr.finish(); }
@@ -433,7 +587,7 @@ fn run_case(cin: &CaseIn, dir: &str) -> String {
 
 // ------------------------------------------------------------------ generator
 fn gen_case(rng: &mut Rng, id: String, tier: &str) -> CaseIn {
-  let napps = *rng.weighted(&[(2, 1usize), (4, 2), (4, 3), (2, 4)]);
+  let napps = *rng.weighted(&[(1, 0usize), (6, 1), (12, 2), (12, 3), (6, 4)]);
   let mut ops = vec![];
   let mut apps = vec![];
   for i in 0..napps {
@@ -443,7 +597,7 @@ fn gen_case(rng: &mut Rng, id: String, tier: &str) -> CaseIn {
     ops.push(format!("appender A{i} {cap} {}", if block { "block" } else { "drop" }));
   }
   let subset = |rng: &mut Rng, p_empty: u64| -> String {
-    if rng.chance(p_empty, 100) { return "-".into(); }
+    if apps.is_empty() || rng.chance(p_empty, 100) { return "-".into(); }
     let mut v: Vec<String> = apps.iter().filter(|_| rng.chance(1, 2)).cloned().collect();
     if v.is_empty() { v.push(rng.pick(&apps).clone()); }
     if rng.chance(1, 12) { let d = v[0].clone(); v.push(d); } // a logger may name an appender twice
@@ -466,15 +620,17 @@ fn gen_case(rng: &mut Rng, id: String, tier: &str) -> CaseIn {
   }
   let threads = *rng.weighted(&[(3, 1usize), (3, 2), (2, 3), (1, 4)]);
   let nev = if tier == "thorough" { rng.range(8, 40) } else { rng.range(6, 20) } as usize;
-  let cut = if rng.chance(1, 2) { nev } else { rng.below(nev as u64 + 1) as usize };
+  let cut = if rng.chance(3, 5) { nev } else { rng.below(nev as u64 + 1) as usize };
   let mut seqs = vec![0usize; threads];
   // targets related to the configured names are likelier
   let mut related: Vec<&str> = TARGETS.iter().copied().filter(|t| names.iter().any(|n| t.starts_with(n) || n.starts_with(t))).collect();
   if related.is_empty() { related = TARGETS.to_vec(); }
+  let mut hits: Vec<&str> = TARGETS.iter().copied().filter(|t| names.iter().any(|n| name_matches(n, t))).collect();
+  if hits.is_empty() { hits = related.clone(); }
   for i in 0..nev {
     if i == cut { ops.push(format!("shutdown {}", if rng.chance(1, 2) { "shutdown" } else { "drop" })); }
     let th = rng.below(threads as u64) as usize;
-    let target = if rng.chance(3, 4) { *rng.pick(&related) } else { *rng.pick(TARGETS) };
+    let target = match rng.below(20) { 0..=10 => *rng.pick(&hits), 11..=15 => *rng.pick(&related), _ => *rng.pick(TARGETS) };
     let lvl = LEVELS[rng.range(1, 5) as usize];
     let api = if rng.chance(1, 2) { "log" } else { "tracing" };
     ops.push(format!("emit {th} {} {api} {} {lvl}", seqs[th], tok(target)));
@@ -484,6 +640,15 @@ fn gen_case(rng: &mut Rng, id: String, tier: &str) -> CaseIn {
   let mut header = vec![format!("threads={threads}")];
   if root_implicit { header.push("rootimplicit=1".into()); }
   CaseIn { id, header, ops }
+}
+
+fn gen_race(rng: &mut Rng, id: String) -> CaseIn {
+  let threads = rng.range(1, 4) as usize;
+  let n = *rng.pick(&[50usize, 200, 400]);
+  let after = rng.below((threads * n) as u64 + 1) as usize;
+  let cap = *rng.pick(&[1usize, 2, 4, 16, 1024]);
+  let sd = if rng.chance(1, 2) { "shutdown" } else { "drop" };
+  CaseIn { id, header: vec!["kind=race".into(), format!("threads={threads}"), format!("n={n}"), format!("after={after}"), format!("cap={cap}"), format!("sd={sd}")], ops: vec![] }
 }
 
 fn run_all(cases: Vec<CaseIn>) {
@@ -504,9 +669,13 @@ fn main() {
   }
   match parse_args() {
     Mode::Run { file } => run_all(read_cases(&file)),
-    Mode::Gen { seed, cases, tier, .. } => {
+    Mode::Gen { seed, cases, tier, extra } => {
       let mut rng = Rng::new(seed ^ 0xC19);
-      let v: Vec<CaseIn> = (0..cases).map(|i| { let mut r = rng.fork(); gen_case(&mut r, format!("g{seed}-{i}"), &tier) }).collect();
+      let race = extra.iter().any(|(k, v)| k == "kind" && v == "race");
+      let v: Vec<CaseIn> = (0..cases).map(|i| {
+        let mut r = rng.fork();
+        if race { gen_race(&mut r, format!("r{seed}-{i}")) } else { gen_case(&mut r, format!("g{seed}-{i}"), &tier) }
+      }).collect();
       run_all(v);
     }
   }
